@@ -323,6 +323,26 @@ def run(repo: Repo, tier: str) -> Report:
     rep.ob("R-BIND", d.file, "ws2doptvplc_tyx", "the driver calls the helper with (series, mask, p, grid)", len(call) == 1 and
            [ast.unparse(a) for a in call[0].args] == ["xx", "ww", "p", "llas"], f"{[ast.unparse(c) for c in call]}", call[0] if call else "_ws2doptvp(...)")
 
+    # the driver's valid count, its guard, and the two outputs
+    from ..symb import StoreCollector as _SC
+    dsc_ = _SC(d.node, d.file, loop_atoms_by_name=True, strict=False, keep_arrays=True).run()
+    incs = [x for nm_, ds_ in dsc_.scalars.items() for x in ds_ if x.aug and (x.rhs - Rat.atom(nm_)).equals(Rat.const(1)) and x.region.kind == "loop"]
+    cnt = [x for x in incs if any(g_.startswith("ne0[") and "nodata" in g_ for g_ in x.guards)]
+    okn = len(cnt) == 1 and len(cnt[0].guards) == 1 and cnt[0].region.rng is not None
+    cname = cnt[0].name if cnt else None
+    rep.ob("R-FORMULA", d.file, "ws2doptvplc_tyx", "the driver counts exactly the cells != nodata of the pixel", okn,
+           f"count increments: {[(x.name, list(x.guards)) for x in incs]}", cnt[0].stmt if cnt else "ngood += 1")
+    if call and cname:
+        rnd_ = [c_ for c_ in dsc_.calls if c_.func == "round" and len(c_.args) == 3]
+        lst = [x for x in dsc_.stores if x.arr == "lopts"]
+        gwant = f"lt0[-1*{cname} + 1]"
+        okg = len(rnd_) == 1 and len(lst) == 1 and list(rnd_[0].guards) == [gwant] and list(lst[0].guards) == [gwant]
+        rep.ob("R-GUARD", d.file, "ws2doptvplc_tyx", "the helper's results are used exactly for pixels with more than one valid cell", okg,
+               f"guards of the rounding {[list(c_.guards) for c_ in rnd_]} and of the lambda store {[list(x.guards) for x in lst]}; required [{gwant}]", call[0])
+        oko = len(rnd_) == 1 and rnd_[0].args[0].startswith("item0[_ws2doptvp[") and rnd_[0].args[1] == "0" and rnd_[0].args[2] == "zz[:,rr,cc]" \
+            and len(lst) == 1 and lst[0].rhs.key().startswith("item1[_ws2doptvp[") and lst[0].idx_key == "rr,cc"
+        rep.ob("R-MUSTWRITE", d.file, "ws2doptvplc_tyx", "the smoothed series is rounded into zz[:, r, c] and the lambda stored in lopts[r, c] for every smoothed pixel", oko,
+               f"round calls {[c_.args for c_ in rnd_]}; lopts stores {[(x.idx_key, x.rhs.key()[:40]) for x in lst]}", call[0])
     # ---- accessor
     m = repo.method("hdc.algo.accessors", "WhittakerSmoother", "whitsvc")
     sites = {s.kernel: s for s in load_sites(repo, kernels) if s.where() == "WhittakerSmoother.whitsvc"}
